@@ -139,7 +139,9 @@ def tables(ctx) -> None:
     text = core.src(ge.node)
     ctx.check('self.EXPRESSION[expression](*arguments)' in text, 'R-TABLE', ge, 'generate_expression applies EXPRESSION[expression] to the arguments in order', ge.node, key='generate_expression')
     gs = prog.func(f'{ALCHEMY}:Parser.generate_set')
-    ctx.check('self.SET[kind](left, right)' in core.src(gs.node), 'R-TABLE', gs, 'generate_set applies SET[kind](left, right)', gs.node, key='generate_set')
+    gsr = [r for r in core.walk_local(gs.node) if isinstance(r, ast.Return)]
+    l_, r_, k_ = gs.param_names[1:4]
+    ctx.check(len(gsr) == 1 and core.src(gsr[0].value) == f'self.SET[{k_}]({l_}, {r_})', 'R-TABLE', gs, f'generate_set returns SET[kind](left, right): exactly the two operands, in order, under the operator of their own kind (`{core.src(gsr[0].value)[:80] if gsr else None}`)', gs.node, key='generate_set')
 
 
 def join_flags(ctx) -> None:
